@@ -26,7 +26,14 @@
      E3_subst_orth     R R^T = 1  ==>  E3 v (f o R) = E3 v f   for EVERY polynomial f: the isotropic
                        Gaussian moment functional is invariant under every orthogonal substitution, proper or
                        improper.
-     shiftmul_subst_mon  (Q (y + c))^a g  ==  prod_i (Q_i . y + Q_i . c)^(a_i) g     (used by Proofs/RotationP.v) *)
+     peval_subst       the value of f o R at u is the value of f at R u (pins the meaning of [subst])
+     factors_smono / factors_E3   E3 of a product of one-variable polynomials = product of the 1-D functionals E
+     shiftmul_subst_mon  (Q (y + c))^a g  ==  prod_i (Q_i . y + Q_i . c)^(a_i) g
+     rotated_product2_E3 / rotated_product3_E3   E3 of (y+cA)^a (y+cB)^b [(y+cC)^k] against the entries of (R^T u)^a ...
+                       for displacements rotated by R (columns of R orthonormal)           (used by Proofs/RotationP.v)
+     lap_subst, euler_subst, rsq_subst, kinop_subst   Laplacian, y.grad, |y|^2 and the kinetic operator
+                       -h e^{beta y^2} Lap(. e^{-beta y^2}) commute with every orthogonal substitution
+     kinT_covariant    a covariant bilinear form on index pairs stays covariant when the kinetic operator acts on one index *)
 From Coq Require Import List Arith Lia Field.
 From GB Require Import Base.Field Base.FNum Gauss.Moment1D.
 Import ListNotations.
